@@ -1,6 +1,6 @@
 (* C16_filter_grammar: the topic-name / topic-filter code of validate.rs (model: Validate/Topic.v)
-   computes exactly the grammar of MQTT 5 section 4.7 / 4.8.2 as written in Validate/Spec.v, for
-   ALL byte strings (induction over the string and over its list of levels). *)
+   computes exactly the grammar of MQTT 5 section 4.7 / 4.8.2 (including [MQTT-4.7.3-2], no null
+   character) as written in Validate/Spec.v, for ALL byte strings (induction over the string and over its list of levels). *)
 From Coq Require Import Btauto.
 From GM Require Import Base.Prelude Base.Outcome Codec.Packets Codec.Prim Validate.Topic Validate.Spec.
 Open Scope N_scope.
@@ -196,10 +196,14 @@ Proof.
     destruct nm, l2, ls; reflexivity.
 Qed.
 
+(* ---- str::contains('\0') ---- *)
+Lemma contains_nul_no_nul s : contains_nul s = negb (no_nul s).
+Proof. unfold no_nul, contains_nul, has_byte. now rewrite negb_involutive. Qed.
+
 (* ---- the theorem ---- *)
 Theorem filter_grammar : forall f,
   let p := topic_filter_properties f in
-  tf_is_valid p = spec_plain_filter f /\
+  tf_is_valid p = spec_plain_filter f && no_nul f /\
   (tf_is_valid p = true ->
      tf_is_shared p = spec_shared_filter f /\ tf_has_wildcard p = filter_has_wildcard f).
 Proof.
@@ -209,7 +213,10 @@ Proof.
     apply orb_true_iff in E as [E|E]; [apply N.eqb_eq in E | apply N.ltb_lt in E].
     + replace (1 <=? len f) with false by (symmetry; apply N.leb_gt; lia). reflexivity.
     + replace (len f <=? 65535) with false by (symmetry; apply N.leb_gt; lia). now rewrite andb_false_r.
-  - apply orb_false_iff in E as [E0 E1]. apply N.eqb_neq in E0. apply N.ltb_ge in E1.
+  - rewrite contains_nul_no_nul. destruct (no_nul f); cbn [negb].
+    2:{ cbn [tf_is_valid]. split; [now rewrite andb_false_r | discriminate]. }
+    rewrite andb_true_r.
+    apply orb_false_iff in E as [E0 E1]. apply N.eqb_neq in E0. apply N.ltb_ge in E1.
     replace (1 <=? len f) with true by (symmetry; apply N.leb_le; lia).
     replace (len f <=? 65535) with true by (symmetry; apply N.leb_le; lia).
     rewrite split_slash_levels. cbn [ts_props tf_is_valid tf_is_shared tf_has_wildcard andb].
@@ -223,26 +230,34 @@ Proof.
         clear Hv. induction (levels f) as [|l ls IHl]; [reflexivity|]. cbn [existsb]. rewrite IHl, contains_wildcard_has. btauto.
 Qed.
 
+(* a valid filter has no null character ([MQTT-4.7.3-2]) *)
+Corollary filter_valid_no_nul f : tf_is_valid (topic_filter_properties f) = true -> no_nul f = true.
+Proof. destruct (filter_grammar f) as [Hv _]. cbv zeta in Hv. rewrite Hv. intros H. now apply andb_true_iff in H. Qed.
+
 (* ---- topic names ---- *)
-Theorem topic_grammar : forall t, is_valid_topic t = spec_topic t.
+Theorem topic_grammar : forall t, is_valid_topic t = spec_topic t && no_nul t.
 Proof.
   intros t. unfold is_valid_topic, spec_topic, length_ok, MAXIMUM_STRING_PROPERTY_LENGTH.
-  rewrite contains_wildcard_has.
+  rewrite contains_wildcard_has, contains_nul_no_nul.
   destruct (len t =? 0) eqn:E0; cbn [orb].
   - apply N.eqb_eq in E0. replace (1 <=? len t) with false by (symmetry; apply N.leb_gt; lia). reflexivity.
   - apply N.eqb_neq in E0. replace (1 <=? len t) with true by (symmetry; apply N.leb_le; lia).
     destruct (65535 <? len t) eqn:E1.
     + apply N.ltb_lt in E1. replace (len t <=? 65535) with false by (symmetry; apply N.leb_gt; lia). reflexivity.
     + apply N.ltb_ge in E1. replace (len t <=? 65535) with true by (symmetry; apply N.leb_le; lia).
-      destruct (has_byte 35 t), (has_byte 43 t); reflexivity.
+      destruct (has_byte 35 t), (has_byte 43 t), (no_nul t); reflexivity.
 Qed.
+
+(* a valid topic name has no null character ([MQTT-4.7.3-2]) *)
+Corollary topic_valid_no_nul t : is_valid_topic t = true -> no_nul t = true.
+Proof. rewrite topic_grammar. intros H. now apply andb_true_iff in H. Qed.
 
 (* ---- the capability-dependent verdict ---- *)
 Definition no_local_set (nl : option bool) : bool := match nl with Some b => b | None => false end.
 
 Theorem filter_verdict : forall f sh wc nl,
   is_valid_topic_filter_internal f (Some (sh, wc)) nl =
-  Ok (spec_plain_filter f &&
+  Ok (spec_plain_filter f && no_nul f &&
       (negb (spec_shared_filter f) || (sh && negb (no_local_set nl))) &&
       (negb (filter_has_wildcard f) || wc)).
 Proof.
@@ -269,6 +284,6 @@ Theorem filter_verdict_spec : forall f sh wc nl,
 Proof.
   intros f sh wc nl Hm. rewrite filter_verdict. f_equal. unfold spec_filter_verdict, spec_filter, malformed_share in *.
   pose proof (shared_starts f) as Hss.
-  destruct (spec_plain_filter f), (starts_with_share f), (spec_shared_filter f), sh, nl as [[|]|], (filter_has_wildcard f), wc;
+  destruct (spec_plain_filter f), (no_nul f), (starts_with_share f), (spec_shared_filter f), sh, nl as [[|]|], (filter_has_wildcard f), wc;
     cbn in *; try reflexivity; try discriminate; try (specialize (Hss eq_refl); discriminate).
 Qed.
